@@ -52,14 +52,22 @@ template <> void prepareAlphabet<TA>(TA& aut, bool forked)
 	aut.SetAlphabet(g_forked);
 }
 
+// "preuse": ONE parser and ONE serialiser object per worker process are used again and again for all texts (malformed ones
+// included) instead of fresh objects per call - whatever an object remembers from an earlier text must not matter
+VATA::Parsing::TimbukParser g_sharedParser;
+VATA::Serialization::TimbukSerializer g_sharedSer;
+bool g_preuse = false;
+
 template <class Aut>
 json roundTrip(const std::string& text, const char* stage, bool forked = false)
 {
 	json res;
 	try
 	{
-		VATA::Parsing::TimbukParser parser;
-		VATA::Serialization::TimbukSerializer ser;
+		VATA::Parsing::TimbukParser freshParser;
+		VATA::Serialization::TimbukSerializer freshSer;
+		VATA::Parsing::TimbukParser& parser = g_preuse ? g_sharedParser : freshParser;
+		VATA::Serialization::TimbukSerializer& ser = g_preuse ? g_sharedSer : freshSer;
 		SetStage((std::string(stage) + ":load").c_str());
 		AutBase::StateDict dict;
 		Aut x;
@@ -87,13 +95,15 @@ json roundTrip(const std::string& text, const char* stage, bool forked = false)
 VDRIVE_OP(timbuk)
 {
 	std::string text = c.at("text").get<std::string>();
+	g_preuse = c.value("preuse", false);
 	json res;
 	{
 		json p;
 		SetStage("parse");
 		try
 		{
-			VATA::Parsing::TimbukParser parser;
+			VATA::Parsing::TimbukParser freshParser;
+			VATA::Parsing::TimbukParser& parser = g_preuse ? g_sharedParser : freshParser;
 			VATA::Util::AutDescription d = parser.ParseString(text);
 			p["desc"] = descToJson(d);
 			p["outcome"] = "ok";
@@ -103,7 +113,8 @@ VDRIVE_OP(timbuk)
 				SetStage("serialise+parse");
 				try
 				{
-					VATA::Serialization::TimbukSerializer ser;
+					VATA::Serialization::TimbukSerializer freshSer;
+					VATA::Serialization::TimbukSerializer& ser = g_preuse ? g_sharedSer : freshSer;
 					rs["desc"] = descToJson(parser.ParseString(ser.Serialize(d)));
 					rs["outcome"] = "ok";
 				}
